@@ -107,6 +107,18 @@ CHECKS = {
          "block-by-block fresh assembly.",
          "Trusted: format decoders in pyprops/formats.py. Input file name held constant (ELF embeds it).",
          "DESIGN.md 3/C13"),
+ "C14": ("hypothesis+nvserve",
+         "differential testing against a reference model: seeded enumeration of opcode x state single steps + Hypothesis-generated -run programs vs ref_msp430 (written from SLAU144)",
+         "Generated-input search against a reference model: (a) first opcode words of the 16-bit core (quick: ~120k seeded "
+         "field-product samples, thorough: all first words 0x1000..0xffff x 3 states) with boundary-valued registers, "
+         "extension words, SR bits and memory operands are single-stepped on a fresh SimulateMsp430 in the sanitized "
+         "harness (forked batches, so a crash is attributed to its case); r0-r15, all SR bits and every changed memory "
+         "byte are compared with pyprops/ref_msp430.py; (b) Hypothesis-generated straight-line/loop/call/conditional "
+         "programs are assembled by naken_asm and run with naken_util -run [-break_io]; final registers, cycle count "
+         "and exit status are compared with the reference running the image decoded by an independent hex reader.",
+         "Trusted: pyprops/ref_msp430.py (280 lines, from the family user's guide incl. cycle tables 3-14..3-16). Combinations "
+         "the guide leaves undefined are skipped and counted in the evidence classes (skipped_undefined.*).",
+         "DESIGN.md 3/C14"),
  "C18": ("hypothesis+nvserve",
          "Hypothesis structured programs; generic .lst parser checked against the hex output and an own disassembly of the output image",
          "Generated-input search: structured programs (multi-word instructions, data between code, .org segments, "
